@@ -12,6 +12,16 @@ CHECKS = {
          "All sequences (quick depth 5, thorough depth 5 on a larger alphabet) of update/delete/hash/commit/flush/cap/dereference/reopen/copy on the real Trie, SecureTrie and trie Database, de-duplicated on a canonical state; after every transition: reads, canonical root (= root of a fresh trie with the same content), root injectivity, iterator stream, genuine proofs; then every insertion permutation of every reached content and every single-node proof tamper (drop, byte substitution, truncation, foreign node). Right level: the property is a for-all over histories of a small sequential library, which bounded exhaustive search decides directly on the code.",
          "Runs the implementation itself; reference model is a Go map. Storage device is MemDB with copying batches (as on-disk backends behave). Bounded by alphabet (6-9 keys with structural collisions, 2-3 values) and depth.",
          "5/C10"),
+ "C01": ("model_checking",
+         "TLC on a TLA+ model of the voting discipline (Agreement for all interleavings) bound to the code by guard functions cross-validated against TLC's state graph; explicit-state BFS of one real ConsensusState vs. arbitrary environment; deviation-bounded exhaustive exploration of 3 real nodes + 1 Byzantine puppet",
+         "Three cooperating exhaustive explorations. (model) TLC enumerates every reachable state of 3 most-general disciplined processes + 1 Byzantine process over rounds 0..1 (thorough: 0..2, capped) and checks Agreement; two weakened variants must violate it (sensitivity). (binding) the Go guard functions for prevote/precommit/decide are compared with TLC's outgoing action labels in every reachable model state. (local) BFS over all environment inputs (proposals, blocks, votes incl. equivocation, timeouts) to ONE real ConsensusState from the initial state and 8 scripted deeper states (locked, round-changed, commit-waiting ...), de-duplicated on a canonical digest of the real RoundState; every vote/commit the real node emits must be an enabled model action. (net) every execution of 3 real nodes + Byzantine proposer with <= 2 deviations (all pairs of Byzantine actions, every single scheduling deviation) checks agreement, the guards, proposer agreement and panics end to end. Right level: safety under all schedules/Byzantine behaviours is exactly what exhaustive state exploration decides; the model gives the all-interleavings argument, the implementation searches bind it to the code.",
+         "Trusts TLC for the model. Bounds: 4 validators, equal power in symmetry-reduced searches (one unequal-power search in thorough), rounds 0..1 (0..2 in parts), height 1, depth 4-7 from each start state, <=2-3 deviations. Recover mode never triggered. Synchronous driver calls the same handleMsg/handleTimeout as receiveRoutine.",
+         "5/C01"),
+ "C16": ("model_checking",
+         "exhaustive state x message product on the real reactor + state machine (boundary-value fields, signature modes, wrong channels, raw byte truncation/substitution), worker subprocesses under ulimit -v",
+         "11 scripted consensus states (every step of height 1, round 1, height 2) x every hostile message of the alphabet (about 1800 typed messages: each field of Vote/Proposal/BlockPart/state-channel messages at boundary values x 5 signature modes, every message kind on every wrong channel; about 9700 raw byte strings: every truncation and every single-byte substitution from 11 values of 6 valid encodings); thorough adds all ordered pairs of consensus-relevant messages. Each case goes through ConsensusReactor.Receive as the p2p layer delivers it, then whatever was queued through handleMsg, then timeouts. Oracle: no panic or process death in the state machine; invalid messages leave the RoundState digest unchanged.",
+         "One hostile peer (a Byzantine validator's signed message counts as one peer). Panics inside Receive are contained by MConnection's recover (recorded). Process death by unbounded allocation is observed through worker subprocesses (6 GiB address-space limit).",
+         "5/C16"),
 }
 
 NOT_YET = "check not built yet in this round (design in DESIGN.md section 5); no claim is made"
@@ -56,6 +66,10 @@ def main():
         "engines": [
             {"name": "opx", "path": "/verif/harness/vk/opx.go", "serves_properties": sorted(CHECKS.keys()),
              "kind_free_text": "explicit-state breadth-first search over operation sequences of the real code (fresh instance + replay per successor), canonical state keys, reference-model oracle"},
+            {"name": "devx", "path": "/verif/harness/vk/devx.go", "serves_properties": ["C01", "C18"],
+             "kind_free_text": "deviation-bounded exhaustive exploration: every execution whose environment answers deviate from the default schedule with total cost <= bound (iterative context bounding generalised to message delivery, timeouts, Byzantine actions, short reads)"},
+            {"name": "TLC", "path": "/verif/models/TMDiscipline.tla", "serves_properties": ["C01"],
+             "kind_free_text": "pre-installed explicit-state model checker on a TLA+ model; bound to the code through guard functions cross-validated against the dumped state graph"},
         ],
         "checks": checks,
         "not_applicable": na,
